@@ -52,33 +52,10 @@ def reduce_target : List SkLine :=
     ⟨3, "break", none, ""⟩,
     ⟨0, "ret", none, "janetc_gettarget(p0)"⟩]
 
+/-- `opreduce` (since `fix: variadic arithmetic reads its variable operands before the first step`, /repo 016fa0d): operands from the third on
+    with `JANET_SLOT_MUTABLE` are copied into fresh slots BEFORE the first instruction (model: `Spec.snapshotArgs` / `Spec.emitOpreduceSnap`);
+    the body without that loop is NOT accepted any more - reverting the fix fails `skeleton_opreduce_ok` -/
 def opreduce : List SkLine :=
-   [⟨0, "let", none, "$0 = 0"⟩,
-    ⟨0, "if", none, "janet_v_count(p1) == 0"⟩,
-    ⟨1, "ret", none, "janetc_cslot(p4)"⟩,
-    ⟨0, "else", none, ""⟩,
-    ⟨1, "if", none, "janet_v_count(p1) == 1"⟩,
-    ⟨2, "let", none, "$1 = janetc_gettarget(p0)"⟩,
-    ⟨2, "if", some .subtract, "p2 == JOP_SUBTRACT"⟩,
-    ⟨3, "emit", some .multiplyImmediate, "ssi JOP_MULTIPLY_IMMEDIATE ($1, p1[0], -1, 1)"⟩,
-    ⟨2, "else", none, ""⟩,
-    ⟨3, "emit", none, "sss p2 ($1, janetc_cslot(p5), p1[0], 1)"⟩,
-    ⟨2, "ret", none, "$1"⟩,
-    ⟨0, "let", none, "$1 = reduce_target(p0, p1, 2)"⟩,
-    ⟨0, "if", none, "p3 && can_slot_be_imm(p1[1], &$0)"⟩,
-    ⟨1, "emit", none, "ssi p3 ($1, p1[0], $0, 1)"⟩,
-    ⟨0, "else", none, ""⟩,
-    ⟨1, "emit", none, "sss p2 ($1, p1[0], p1[1], 1)"⟩,
-    ⟨0, "for", none, "$2 = 2; $2 < janet_v_count(p1); $2++"⟩,
-    ⟨1, "if", none, "p3 && can_slot_be_imm(p1[$2], &$0)"⟩,
-    ⟨2, "emit", none, "ssi p3 ($1, $1, $0, 1)"⟩,
-    ⟨1, "else", none, ""⟩,
-    ⟨2, "emit", none, "sss p2 ($1, $1, p1[$2], 1)"⟩,
-    ⟨0, "ret", none, "$1"⟩]
-
-/-- `opreduce` with patches/fix-C15-opreduce-late-operand-read.diff applied: variable operands from the third on are copied into fresh slots
-    before the first instruction; the emitted chain is the same function of the (then fresh) operand registers -/
-def opreduce_snapshot : List SkLine :=
    [⟨0, "let", none, "$0 = 0"⟩,
     ⟨0, "if", none, "janet_v_count(p1) == 0"⟩,
     ⟨1, "ret", none, "janetc_cslot(p4)"⟩,
